@@ -109,7 +109,7 @@ type c14Case struct {
 	Hex    string `json:"input_hex,omitempty"`
 	Text   string `json:"text,omitempty"`
 	IsText bool   `json:"is_text,omitempty"`
-	Logger string `json:"library_logger_level,omitempty"` // "trace": run with the library's diagnostics on
+	Logger string `json:"library_logger_level,omitempty"` // "info": run at the library's default log level instead of trace
 }
 
 var c14TraceMode bool
@@ -117,7 +117,7 @@ var c14TraceMode bool
 func c14Mk(h *c14Helper, hex string) c14Case {
 	cs := c14Case{Helper: h.name, Hex: hex}
 	if c14TraceMode {
-		cs.Logger = "trace"
+		cs.Logger = "info"
 	}
 	return cs
 }
@@ -143,10 +143,10 @@ func c14Exec(c *core.Ctx, in c14Case) {
 			c14RunBytes(c, h, unhex(in.Hex))
 		}
 	}
-	if in.Logger == "trace" {
+	if in.Logger == "info" {
 		c14TraceMode = true
 		defer func() { c14TraceMode = false }()
-		withTraceLogging(run)
+		withDefaultLogging(run)
 		return
 	}
 	run()
@@ -399,7 +399,7 @@ func c14Run(c *core.Ctx) {
 			// diagnostics on: the truncations and a 13-value replacement at every position again with the library logger at
 			// trace level (code that only runs when an application has turned logging up)
 			c14TraceMode = true
-			withTraceLogging(func() {
+			withDefaultLogging(func() {
 				for cut := 0; cut <= len(seed); cut++ {
 					run(seed[:cut])
 				}
@@ -562,7 +562,7 @@ func init() {
 			if tier == "thorough" {
 				l3 = "every byte string of length 3 (all 2^24)"
 			}
-			return "per helper (35 byte-input helpers incl. the nasType.MobileIdentity5GS / DNN text getters, 4 text-input variants): every byte string of length 0..2, " + l3 + ", every string of length 4..6 (7 thorough) over an 8-value branch-constant alphabet, every string of length 4 (thorough: 5) over the alphabet read from the helper's current source (every integer literal 0..255 and character literal of the nasConvert package resp. the element's file, plus the fixed alphabet), lengths up to 12 (24) as identity-type octet x fill x single deviation, and the <=2-mutation neighbourhood (every truncation, every single-octet replacement by all 256 values, deletions, insertions, pairs of replacements, every valid prefix followed by a constant-filled tail of 1..24 octets) of 12 valid encodings (truncations and a 13-value replacement at every position also with the library logger at trace level), and the unit-repetition family (n copies of a length-prefixed unit of 0, 1, 2, 3, 4, 5 or 8 octets — every n that fits into 255 octets, thinned above 40 in the quick tier — followed by 0..2 copies of each other unit, bare, behind a leading 00 / 01 octet, and cut one octet short: limits that depend on the number of entries); text variants over all strings of length <=3 over {0,9,a,f,g,-,é} and <=2 mutations of valid texts. Oracle: returns without panic (recover), terminates and stays within the heap limit (worker watchdog). Element-typed helpers are judged on lengths the decoders can deliver; shorter inputs are counted separately."
+			return "per helper (35 byte-input helpers incl. the nasType.MobileIdentity5GS / DNN text getters, 4 text-input variants): every byte string of length 0..2, " + l3 + ", every string of length 4..6 (7 thorough) over an 8-value branch-constant alphabet, every string of length 4 (thorough: 5) over the alphabet read from the helper's current source (every integer literal 0..255 and character literal of the nasConvert package resp. the element's file, plus the fixed alphabet), lengths up to 12 (24) as identity-type octet x fill x single deviation, and the <=2-mutation neighbourhood (every truncation, every single-octet replacement by all 256 values, deletions, insertions, pairs of replacements, every valid prefix followed by a constant-filled tail of 1..24 octets) of 12 valid encodings (truncations and a 13-value replacement at every position also with the library logger at its default level (everything else runs at trace level)), and the unit-repetition family (n copies of a length-prefixed unit of 0, 1, 2, 3, 4, 5 or 8 octets — every n that fits into 255 octets, thinned above 40 in the quick tier — followed by 0..2 copies of each other unit, bare, behind a leading 00 / 01 octet, and cut one octet short: limits that depend on the number of entries); text variants over all strings of length <=3 over {0,9,a,f,g,-,é} and <=2 mutations of valid texts. Oracle: returns without panic (recover), terminates and stays within the heap limit (worker watchdog). Element-typed helpers are judged on lengths the decoders can deliver; shorter inputs are counted separately."
 		},
 		Assumptions: []string{
 			"element-typed helpers (MobileIdentity5GS getters: >= 4 octets, DNN: >= 1, fixed-size time elements) are judged on decoder-deliverable lengths only",
